@@ -20,7 +20,7 @@
     d8244e2 of /repo, the invariant failed after a refused NEWSA (tracked but absent), and the teardown that follows
     could even delete a key of ANOTHER IKE_SA (peer proposes an SPI that is installed for another IKE_SA to the same
     peer: EEXIST, IKE_SA DELETED, delete_child_sas issues DELSA for that SPI and the kernel obeys). *)
-From Coq Require Import ZArith NArith Bool List Lia ZifyBool Permutation.
+From Coq Require Import ZArith NArith Bool List Lia ZifyBool Permutation PeanoNat.
 From RecordUpdate Require Import RecordSet.
 From VLib Require Import Bytes.
 From IkeSa Require Import Gen.IkeFacts Shell Hdl.
@@ -474,15 +474,24 @@ Definition refusal (c : core) (ch : child) (ks : list kop) : Prop :=
   ks = [] \/ (exists a, ks = [K_add a false]) \/
   (exists a b v, key_of_ksa a = kout c ch /\
                  ks = [K_add a true; K_add b false; K_del (peer_addr c) (ipsec_proto (c_prop ch)) (c_out ch) v]).
+(** ... of a create_child_sa that succeeds: the two accepted NEWSAs; the outbound SPI (chosen by the peer) had the
+    four bytes of the netlink field *)
+Definition spi4 (ch : child) : Prop := length (c_out ch) = 4%nat.
 Definition installs (c : core) (ch : child) (ks : list kop) : Prop :=
-  exists a b, key_of_ksa a = kout c ch /\ key_of_ksa b = kin c ch /\ ks = [K_add a true; K_add b true].
+  exists a b, key_of_ksa a = kout c ch /\ key_of_ksa b = kin c ch /\ ks = [K_add a true; K_add b true] /\ spi4 ch.
 Definition deletes (c : core) (ch : child) (ks : list kop) : Prop :=
   exists v1 v2, ks = [K_del (peer_addr c) (ipsec_proto (c_prop ch)) (c_out ch) v1;
                       K_del (my_addr c) (ipsec_proto (c_prop ch)) (c_in ch) v2].
 
 Lemma installs_intro a b c ch :
-  key_of_ksa a = kout c ch -> key_of_ksa b = kin c ch -> installs c ch [K_add a true; K_add b true].
-Proof. intros H1 H2. exists a, b. auto. Qed.
+  key_of_ksa a = kout c ch -> key_of_ksa b = kin c ch -> spi4 ch -> installs c ch [K_add a true; K_add b true].
+Proof. intros H1 H2 H3. exists a, b. auto. Qed.
+
+(** the guard on the length of the peer's SPI (the only test on a [nat] in the handlers): keep the outcome *)
+Ltac step_spi :=
+  lazymatch goal with
+  | |- post _ (bind (if Nat.eqb ?x ?y then _ else _) _ _) => destruct (Nat.eqb x y) eqn:?
+  end.
 
 Lemma create_spec ch k i s :
   post (fun r s' => match r with
@@ -493,9 +502,9 @@ Lemma create_spec ch k i s :
 Proof.
   pose proof (Tr_refl s) as Hc0.
   unfold create_child_sa.
-  repeat (first [step_verdict | step]; repeat match goal with v : bool |- _ => destruct v end); try trivial.
+  repeat (first [step_spi | step_verdict | step]; repeat match goal with v : bool |- _ => destruct v end); try trivial.
   all: eexists; (split; [eassumption|]); cbn [app].
-  all: try (apply installs_intro; reflexivity).
+  all: try (apply installs_intro; [reflexivity|reflexivity|apply Nat.eqb_eq; assumption]).
   all: unfold refusal, kout.
   all: try (left; reflexivity).
   all: try (right; left; eexists; reflexivity).
@@ -521,17 +530,88 @@ Proof.
   unfold create_child_sa. rs_tac.
 Qed.
 
+(** delete_child_sa: two DELSAs - or, when the outbound SPI does not have four bytes, a generic exception before any
+    request is built (nothing issued, nothing changed) *)
+(** the peer's SPI is not four bytes long: create_child_sa raises the generic exception (TypeError) before the first
+    netlink request is built.  No kernel operation is issued; nothing of the state changes except that the jitter of
+    a finite lifetime may already have been drawn from the tape (one element).  [Stuck] only if that draw did not
+    find a number. *)
+Theorem create_child_sa_bad_spi ch k ini s :
+  length (c_out ch) <> 4%nat ->
+  exists r s', create_child_sa ch k ini s = (r, s')
+    /\ (r = Raise X_Other \/ r = Stuck)
+    /\ kops s' = kops s /\ s' = s <| tape := tape s' |>
+    /\ (tape s' = tape s \/ (c_life ch <> -1 /\ exists d, tape s = d :: tape s'))
+    /\ (r = Stuck -> c_life ch <> -1 /\ forall j, hd_error (tape s) <> Some (D_num j)).
+Proof.
+  intros Hne. apply Nat.eqb_neq in Hne. destruct s as [c ns rp nw tp ko].
+  set (Q := fun (r : res unit) (s' : isa) =>
+              (r = Raise X_Other \/ r = Stuck)
+              /\ kops s' = ko /\ s' = mk_isa c ns rp nw (tape s') ko
+              /\ (tape s' = tp \/ (c_life ch <> -1 /\ exists d, tp = d :: tape s'))
+              /\ (r = Stuck -> c_life ch <> -1 /\ forall j, hd_error tp <> Some (D_num j))).
+  enough (HQ : Q (fst (create_child_sa ch k ini (mk_isa c ns rp nw tp ko)))
+                 (snd (create_child_sa ch k ini (mk_isa c ns rp nw tp ko)))).
+  { eexists. eexists. split; [apply surjective_pairing|exact HQ]. }
+  unfold create_child_sa, draw_num, pop, one_ts, get_transform, stuck. unfold bind, getc, ret, raise. cbn.
+  repeat (match goal with
+          | |- context [Nat.eqb (length (c_out ch)) 4] => rewrite Hne
+          | |- context [match ?x with _ => _ end] =>
+              lazymatch x with
+              | context [match _ with _ => _ end] => fail
+              | _ => destruct x eqn:?
+              end
+          end; cbn).
+  all: unfold Q; cbn.
+  all: split; [first [left; reflexivity | right; reflexivity]|].
+  all: split; [reflexivity|]; split; [reflexivity|].
+  all: split; [first [left; reflexivity | right; split; [apply Z.eqb_neq; assumption|eexists; reflexivity]]|].
+  all: intros Hs; first [discriminate Hs | split; [apply Z.eqb_neq; assumption|intros j Hj; discriminate Hj]].
+Qed.
+
 Lemma delete_spec ch s :
+  post (fun r s' => match r with
+                    | Ok _ => exists ks, Tr s ks s' /\ deletes (co s) ch ks
+                    | Raise e => e = X_Other /\ ~ spi4 ch /\ Sil0 s s'
+                    | Stuck => True
+                    end) (delete_child_sa ch s).
+Proof.
+  pose proof (Tr_refl s) as Hc0.
+  unfold delete_child_sa.
+  repeat first [step_spi | step_verdict | step]; try trivial.
+  - eexists. split; [eassumption|]. cbn [app]. do 2 eexists. reflexivity.
+  - split; [reflexivity|]. split; [|apply Tr_nil_Sil0; assumption].
+    unfold spi4. apply Nat.eqb_neq. assumption.
+Qed.
+(** the peer's SPI is not four bytes long: TypeError before any netlink request is built - the state is literally
+    unchanged, no tape element was consumed *)
+Theorem delete_child_sa_bad_spi ch s :
+  length (c_out ch) <> 4%nat -> delete_child_sa ch s = (Raise X_Other, s).
+Proof.
+  intros Hne. apply Nat.eqb_neq in Hne. unfold delete_child_sa, bind, getc. cbn. rewrite Hne. reflexivity.
+Qed.
+Lemma delete_spec2 ch s :
+  post (fun r s' => match r with
+                    | Ok _ => spi4 ch /\ exists ks, Tr s ks s' /\ deletes (co s) ch ks
+                    | Raise e => e = X_Other /\ ~ spi4 ch /\ Sil0 s s'
+                    | Stuck => True
+                    end) (delete_child_sa ch s).
+Proof.
+  pose proof (delete_spec ch s) as H. unfold post in *.
+  destruct (Nat.eq_dec (length (c_out ch)) 4) as [Heq|Hne].
+  - destruct (fst (delete_child_sa ch s)) as [[]|e|]; [split; [exact Heq|exact H]|exact H|exact H].
+  - rewrite (delete_child_sa_bad_spi ch s Hne) in *. exact H.
+Qed.
+Lemma delete_spec_spi4 ch s :
+  spi4 ch ->
   post (fun r s' => match r with
                     | Ok _ => exists ks, Tr s ks s' /\ deletes (co s) ch ks
                     | Raise e => False
                     | Stuck => True
                     end) (delete_child_sa ch s).
 Proof.
-  pose proof (Tr_refl s) as Hc0.
-  unfold delete_child_sa.
-  repeat first [step_verdict | step]; try trivial.
-  eexists. split; [eassumption|]. cbn [app]. do 2 eexists. reflexivity.
+  intros H4. pose proof (delete_spec ch s) as H. unfold post in *.
+  destruct (fst (delete_child_sa ch s)) as [[]|e|]; [exact H|destruct H as (_ & H & _); exact (H H4)|exact H].
 Qed.
 
 (* ------------------------------------------------------------------------------------------------ *)
@@ -750,7 +830,10 @@ Proof.
 Qed.
 Lemma installs_keys c c' ch ch' ks :
   kout c' ch' = kout c ch -> kin c' ch' = kin c ch -> installs c ch ks -> installs c' ch' ks.
-Proof. unfold installs. intros -> ->. auto. Qed.
+Proof.
+  intros H1 H2 (a & b & Ha & Hb & Hk & Hl). exists a, b. rewrite H1, H2. repeat split; try assumption.
+  unfold kout in H1. injection H1 as _ _ H1. unfold spi4 in *. rewrite H1. exact Hl.
+Qed.
 Lemma refusal_keys c c' ch ch' ks : kout c' ch' = kout c ch -> refusal c ch ks -> refusal c' ch' ks.
 Proof.
   unfold refusal. intros Hk. rewrite Hk. unfold kout in Hk. injection Hk as -> -> ->. auto.
@@ -955,7 +1038,8 @@ Section SubHandlers2.
     - apply post_bind_getc.
       destruct (find_child (children (co s)) spi) as [ch|] eqn:Ef; [|apply IH].
       destruct (pr_proto (c_prop ch) =? proto); [|apply IH].
-      eapply post_bind; [apply delete_spec|]. intros r s1 H. destruct r as [[]|e|]; [|contradiction|left; reflexivity].
+      eapply post_bind; [apply delete_spec|]. intros r s1 H. destruct r as [[]|e|]; [| |left; reflexivity].
+      2:{ destruct H as (_ & _ & H). right. exists []. apply D_nil. exact H. }
       destruct H as (ks & [H1 H2] & Hd).
       apply post_bind_modc.
       match goal with |- post _ (_ ?S0) => set (S := S0) end.
@@ -1154,10 +1238,11 @@ Section Entry.
 
   Lemma delete_and_untrack ch s :
     child_in ch (children (co s)) = true ->
-    post (fun r s' => match r with Ok _ => Deleted s s' ch | Raise _ => False | Stuck => True end)
+    post (fun r s' => match r with Ok _ => Deleted s s' ch | Raise _ => Sil0 s s' | Stuck => True end)
          ((delete_child_sa ch ;;; modc (fun c => c <| children := remove_child (children c) ch |>)) s).
   Proof.
-    intros Hin. eapply post_bind; [apply delete_spec|]. intros r s1 H. destruct r as [[]|e|]; [|contradiction|trivial].
+    intros Hin. eapply post_bind; [apply delete_spec|]. intros r s1 H.
+    destruct r as [[]|e|]; [|destruct H as (_ & _ & H); exact H|trivial].
     destruct H as (ks & [H1 H2] & Hd). apply post_modc.
     split; [|split; [|split]]; cbn.
     - exists ks. auto.
@@ -1192,7 +1277,8 @@ Section Entry.
       2:{ apply post_bind_ret. unfold set_state. apply post_bind_modc. apply post_ret.
           right. eapply T_step; [exact HT1|]. apply A_sil. apply SilA_set_state. left. exact Hopen. }
       eapply post_bind; [apply delete_and_untrack; exact Ein|]. cbv beta.
-      intros r s2 Hdel. destruct r as [[]|e|]; [|contradiction|leaf].
+      intros r s2 Hdel. destruct r as [[]|e|]; [| |leaf].
+      2:{ right. eapply Trans_trans; [exact HT1|apply Trans_sil0; exact Hdel]. }
       unfold set_state. apply post_bind_modc. apply post_ret.
       assert (HstS : st (co s2) = st (co s0)) by (destruct Hdel as (_ & _ & _ & (_ & _ & A & _)); exact A).
       right.
@@ -1526,7 +1612,7 @@ Lemma installs_effect c ch ks sd :
   ~ In (kout c ch) sd /\ ~ In (kin c ch) sd /\ kin c ch <> kout c ch /\
   forall sd', apply_kops sd' ks = kin c ch :: kout c ch :: sd'.
 Proof.
-  intros (x & y & Hx & Hy & ->) Hf. cbn in Hf. destruct Hf as (F1 & F2 & _).
+  intros (x & y & Hx & Hy & -> & _) Hf. cbn in Hf. destruct Hf as (F1 & F2 & _).
   specialize (F1 eq_refl). specialize (F2 eq_refl). rewrite Hx, Hy in *.
   repeat split.
   - exact F1.
@@ -1801,6 +1887,95 @@ Section Main.
 End Main.
 
 (* ------------------------------------------------------------------------------------------------ *)
+(** * The outbound SPIs of the tracked CHILD_SAs have four bytes
+
+    create_child_sa raises before its first netlink request when the SPI the peer chose does not fit the four-byte
+    field, and a CHILD_SA is only tracked after create_child_sa succeeded: every tracked CHILD_SA (of the IKE_SA and
+    of its unregistered successor) has a four-byte outbound SPI.  This is what makes delete_child_sa total on the
+    states the handlers produce (teardown below). *)
+Definition Spi4 (s : isa) : Prop :=
+  Forall spi4 (children (co s)) /\ forall n, new_sa s = Some n -> Forall spi4 (children n).
+
+Lemma remove_child_Forall (P : child -> Prop) l ch : Forall P l -> Forall P (remove_child l ch).
+Proof.
+  induction l as [|y r IH]; cbn; [auto|]. intros H. inversion H as [|? ? Hy Hr]; subst.
+  destruct (child_eqb y ch); [exact Hr|]. constructor; [exact Hy|apply IH; exact Hr].
+Qed.
+Lemma nsame_spi4 a b :
+  nsame a b -> (forall n, a = Some n -> Forall spi4 (children n)) -> forall n, b = Some n -> Forall spi4 (children n).
+Proof.
+  intros Hn H n ->. destruct a as [x|]; [|contradiction]. destruct Hn as (A & _). rewrite A. apply H. reflexivity.
+Qed.
+Lemma atom_spi4 a b : Atom a b -> Spi4 a -> Spi4 b.
+Proof.
+  intros Ha [H1 H2]. destruct Ha as [Hs|Hs|Hs|ch Hs|ch Hs|ch Hs].
+  - destruct Hs as [(_ & A1 & _ & _ & A4) _]. split; [rewrite A1; exact H1|eapply nsame_spi4; eassumption].
+  - destruct Hs as (_ & A1 & _ & _ & _ & _ & n & B0 & B1 & _). split; [rewrite A1; exact H1|].
+    intros n' Hn'. rewrite B0 in Hn'. injection Hn' as <-. rewrite B1. constructor.
+  - destruct Hs as (_ & _ & _ & _ & _ & A1 & n & n' & B0 & B1 & B2 & _). split; [rewrite A1; constructor|].
+    intros x Hx. rewrite B1 in Hx. injection Hx as <-. rewrite B2. exact H1.
+  - destruct Hs as ((ks & _ & (x & y & _ & _ & _ & Hch)) & Hc & (_ & _ & _ & A5)). split.
+    + rewrite Hc. apply Forall_app. split; [exact H1|constructor; [exact Hch|constructor]].
+    + eapply nsame_spi4; eassumption.
+  - destruct Hs as (_ & Hc & (_ & _ & _ & A5)). split; [rewrite Hc; exact H1|eapply nsame_spi4; eassumption].
+  - destruct Hs as (_ & _ & Hc & (_ & _ & _ & A5)).
+    split; [rewrite Hc; apply remove_child_Forall; exact H1|eapply nsame_spi4; eassumption].
+Qed.
+Lemma trans_spi4 a b : Trans a b -> Spi4 a -> Spi4 b.
+Proof. intros H. induction H as [s|s a b H IH Ha]; [auto|]. intros H4. eapply atom_spi4; [exact Ha|apply IH; exact H4]. Qed.
+
+Section Spi4Entry.
+  Variable E : env.
+  Theorem h_request_spi4 s m : Spi4 s -> st (co (fst (h_request E s m))) <> -1 -> Spi4 (fst (h_request E s m)).
+  Proof. intros H4 Hst. eapply trans_spi4; [apply h_request_shape; exact Hst|exact H4]. Qed.
+  Theorem h_response_spi4 s m : Spi4 s -> st (co (fst (h_response E s m))) <> -1 -> Spi4 (fst (h_response E s m)).
+  Proof. intros H4 Hst. eapply trans_spi4; [apply h_response_shape; exact Hst|exact H4]. Qed.
+  Lemma quiet_spi4 s s' : SilA s s' \/ (exists S, Succ s S /\ SilA S s') -> Spi4 s -> Spi4 s'.
+  Proof.
+    intros [H|(S & H1 & H2)] H4.
+    - eapply atom_spi4; [apply A_sil; exact H|exact H4].
+    - eapply atom_spi4; [apply A_sil; exact H2|]. eapply atom_spi4; [apply A_succ; exact H1|exact H4].
+  Qed.
+  Theorem h_trigger_spi4 s e : Spi4 s -> st (co (fst (h_trigger s e))) <> -1 -> Spi4 (fst (h_trigger s e)).
+  Proof.
+    intros H4 Hst. destruct (h_trigger_quiet s e) as [H|H]; [|contradiction]. eapply quiet_spi4; [left; exact H|exact H4].
+  Qed.
+  Theorem gen_dpd_spi4 s :
+    Spi4 s -> st (co (fst (lift_gen generate_dpd_request s))) <> -1 -> Spi4 (fst (lift_gen generate_dpd_request s)).
+  Proof.
+    intros H4 Hst. destruct (lift_gen_quiet _ s sila_gen_dpd) as [H|H]; [|contradiction].
+    eapply quiet_spi4; [left; exact H|exact H4].
+  Qed.
+  Theorem gen_delete_ike_spi4 s :
+    Spi4 s -> st (co (fst (lift_gen generate_delete_ike_sa_request s))) <> -1 ->
+    Spi4 (fst (lift_gen generate_delete_ike_sa_request s)).
+  Proof.
+    intros H4 Hst. destruct (lift_gen_quiet _ s sila_gen_delete_ike) as [H|H]; [|contradiction].
+    eapply quiet_spi4; [left; exact H|exact H4].
+  Qed.
+  Theorem gen_rekey_ike_spi4 s :
+    Spi4 s -> st (co (fst (lift_gen generate_rekey_ike_sa_request s))) <> -1 ->
+    Spi4 (fst (lift_gen generate_rekey_ike_sa_request s)).
+  Proof.
+    intros H4 Hst. destruct (lift_gen_rekey_quiet s) as [H|H]; [|contradiction].
+    eapply quiet_spi4; [exact H|exact H4].
+  Qed.
+End Spi4Entry.
+Lemma Spi4_unfold s :
+  Spi4 s <->
+  (forall ch, In ch (children (co s)) -> length (c_out ch) = 4%nat)
+  /\ (forall n, new_sa s = Some n -> forall ch, In ch (children n) -> length (c_out ch) = 4%nat).
+Proof.
+  unfold Spi4, spi4. rewrite Forall_forall. split; intros [A B]; (split; [exact A|]); intros n Hn.
+  - apply Forall_forall. exact (B n Hn).
+  - apply Forall_forall. exact (B n Hn).
+Qed.
+Lemma Spi4_no_children s : children (co s) = [] -> new_sa s = None -> Spi4 s.
+Proof. intros H1 H2. split; [rewrite H1; constructor|]. intros n Hn. rewrite H2 in Hn. discriminate Hn. Qed.
+Lemma mark_deleted_spi4 s : Spi4 s -> Spi4 (s <| co := (co s) <| st := ST_DELETED |> |>).
+Proof. intros H. exact H. Qed.
+
+(* ------------------------------------------------------------------------------------------------ *)
 (** * G. Teardown and corollaries *)
 
 Definition sad_minus (sd : sad) (ks : list key) : sad := filter (fun k => negb (existsb (key_eqb k) ks)) sd.
@@ -1860,13 +2035,16 @@ Qed.
 
 Section Teardown.
   Lemma delete_all_spec l : forall s,
+    Forall spi4 l ->
     post (fun r s' => r = Stuck \/ (r = Ok tt /\ exists ks, Tr s ks s' /\ DelOps (co s) l ks)) (delete_all l s).
   Proof.
-    induction l as [|ch l IH]; intros s; cbn [delete_all].
+    induction l as [|ch l IH]; intros s H4; cbn [delete_all].
     - apply post_ret. right. split; [reflexivity|]. exists []. split; [apply Tr_refl|constructor].
-    - eapply post_bind; [apply delete_spec|]. intros r s1 H. destruct r as [[]|e|]; [|contradiction|left; reflexivity].
+    - inversion H4 as [|? ? H4a H4b]; subst.
+      eapply post_bind; [apply (delete_spec_spi4 ch s H4a)|]. intros r s1 H.
+      destruct r as [[]|e|]; [|contradiction|left; reflexivity].
       destruct H as (k1 & Ht1 & Hd).
-      eapply post_conseq; [apply IH|]. cbv beta. intros r s' [->|(-> & k2 & Ht2 & Hl)]; [left; reflexivity|].
+      eapply post_conseq; [apply (IH s1 H4b)|]. cbv beta. intros r s' [->|(-> & k2 & Ht2 & Hl)]; [left; reflexivity|].
       right. split; [reflexivity|]. exists (k1 ++ k2). split; [eapply Tr_trans; eassumption|].
       constructor; [exact Hd|].
       destruct Ht1 as [_ (_ & A2 & A3 & _)].
@@ -1874,9 +2052,37 @@ Section Teardown.
       eapply deletes_keys; [| |eassumption]; unfold kout, kin; congruence.
   Qed.
 
-  (** IkeSa.delete_child_sas on ANY state, under faithful verdicts: afterwards no key of a CHILD_SA of this IKE_SA is
+  (** when a tracked CHILD_SA has an outbound SPI that is not four bytes long, delete_all stops there with the
+      generic exception: the CHILD_SAs before it got their two DELSAs, nothing else was issued *)
+  Lemma delete_all_bad_spi l : forall s,
+    ~ Forall spi4 l ->
+    post (fun r s' => r = Stuck \/
+                      (r = Raise X_Other /\ exists l1 ch l2 ks,
+                          l = l1 ++ ch :: l2 /\ Forall spi4 l1 /\ ~ spi4 ch /\ Tr s ks s' /\ DelOps (co s) l1 ks))
+         (delete_all l s).
+  Proof.
+    induction l as [|ch l IH]; intros s H4; cbn [delete_all].
+    - exfalso. apply H4. constructor.
+    - eapply post_bind; [apply delete_spec2|]. intros r s1 H. destruct r as [[]|e|]; [| |left; reflexivity].
+      + destruct H as (Hch & k1 & Ht1 & Hd).
+        assert (H4b : ~ Forall spi4 l) by (intros Hl; apply H4; constructor; assumption).
+        eapply post_conseq; [apply (IH s1 H4b)|]. cbv beta.
+        intros r s' [->|(-> & l1 & c2 & l2 & k2 & -> & Hl1 & Hc2 & Ht2 & Hdo)]; [left; reflexivity|].
+        right. split; [reflexivity|]. exists (ch :: l1), c2, l2, (k1 ++ k2).
+        split; [reflexivity|]. split; [constructor; assumption|]. split; [exact Hc2|].
+        split; [eapply Tr_trans; eassumption|]. constructor; [exact Hd|].
+        destruct Ht1 as [_ (_ & A2 & A3 & _)].
+        clear - Hdo A2 A3. induction Hdo; constructor; [|assumption].
+        eapply deletes_keys; [| |eassumption]; unfold kout, kin; congruence.
+      + destruct H as (-> & Hch & Hs). right. split; [reflexivity|]. exists [], ch, l, [].
+        split; [reflexivity|]. split; [constructor|]. split; [exact Hch|]. split; [apply Tr_nil_Sil0; exact Hs|constructor].
+  Qed.
+
+  (** IkeSa.delete_child_sas on ANY state whose CHILD_SAs have four-byte outbound SPIs (every state the handlers
+      produce: [Spi4] below), under faithful verdicts: afterwards no key of a CHILD_SA of this IKE_SA is
       installed, nothing else was removed, and no CHILD_SA is tracked; the successor keeps what it has *)
   Theorem teardown_general s sd :
+    Forall spi4 (children (co s)) ->
     kops s = [] -> fst (delete_child_sas s) <> Stuck ->
     faithful_run sd (kops (snd (delete_child_sas s))) ->
     fst (delete_child_sas s) = Ok tt
@@ -1885,10 +2091,10 @@ Section Teardown.
     /\ succ_keys (new_sa (snd (delete_child_sas s))) = succ_keys (new_sa s)
     /\ Rest s (snd (delete_child_sas s)).
   Proof.
-    unfold delete_child_sas. intros Hk.
+    unfold delete_child_sas. intros H4 Hk.
     change ((c <- getc;; delete_all (children c);;; modc (fun c0 => c0 <| children := [] |>)) s)
       with ((delete_all (children (co s));;; modc (fun c0 => c0 <| children := [] |>)) s).
-    unfold bind. pose proof (delete_all_spec (children (co s)) s) as H. unfold post in H.
+    unfold bind. pose proof (delete_all_spec (children (co s)) s H4) as H. unfold post in H.
     destruct (delete_all (children (co s)) s) as [[[]|e|] s1]; cbn in *.
     - intros _ Hf. destruct H as [H|(_ & ks & [H1 H2] & Hd)]; [discriminate H|].
       rewrite Hk in H1. cbn in H1. rewrite H1 in *.
@@ -1899,9 +2105,35 @@ Section Teardown.
     - intros H0. exfalso. apply H0. reflexivity.
   Qed.
 
+  (** the other case: some tracked CHILD_SA has an outbound SPI that is not four bytes long (no handler produces
+      such a state).  delete_child_sas raises the generic exception at the first such CHILD_SA; those before it got
+      their DELSAs, nothing else was issued, and the list of CHILD_SAs is NOT cleared *)
+  Theorem teardown_bad_spi s :
+    ~ Forall spi4 (children (co s)) -> kops s = [] -> fst (delete_child_sas s) <> Stuck ->
+    fst (delete_child_sas s) = Raise X_Other
+    /\ children (co (snd (delete_child_sas s))) = children (co s)
+    /\ Rest s (snd (delete_child_sas s))
+    /\ exists l1 ch l2, children (co s) = l1 ++ ch :: l2 /\ Forall spi4 l1 /\ ~ spi4 ch
+                        /\ DelOps (co s) l1 (kops (snd (delete_child_sas s))).
+  Proof.
+    unfold delete_child_sas. intros H4 Hk.
+    change ((c <- getc;; delete_all (children c);;; modc (fun c0 => c0 <| children := [] |>)) s)
+      with ((delete_all (children (co s));;; modc (fun c0 => c0 <| children := [] |>)) s).
+    unfold bind. pose proof (delete_all_bad_spi (children (co s)) s H4) as H. unfold post in H.
+    destruct (delete_all (children (co s)) s) as [[[]|e|] s1]; cbn in *.
+    - destruct H as [H|[H _]]; discriminate H.
+    - intros _. destruct H as [H|(He & l1 & ch & l2 & ks & Hl & Hl1 & Hch & [H1 H2] & Hd)]; [discriminate H|].
+      injection He as ->. rewrite Hk in H1. cbn in H1. rewrite H1.
+      destruct H2 as (A1 & A2 & A3 & A4 & A5).
+      split; [reflexivity|]. split; [exact A1|]. split; [unfold Rest; auto|].
+      exists l1, ch, l2. auto.
+    - intros H0. exfalso. apply H0. reflexivity.
+  Qed.
+
   (** ... hence: removing an IKE_SA (for any reason) removes all its kernel SAs and nothing else; what stays
       installed are exactly the CHILD_SAs handed to a successor that is not registered yet, if any *)
   Theorem teardown_inv s own others :
+    Forall spi4 (children (co s)) ->
     Inv s own others -> kops s = [] -> fst (delete_child_sas s) <> Stuck ->
     faithful_run (own ++ others) (kops (snd (delete_child_sas s))) ->
     apply_kops (own ++ others) (kops (snd (delete_child_sas s)))
@@ -1912,8 +2144,8 @@ Section Teardown.
     /\ Inv (snd (delete_child_sas s)) (sad_minus own (tracked_keys (co s))) others
     /\ (new_sa s = None -> sad_minus own (tracked_keys (co s)) = []).
   Proof.
-    intros (Hnd & Hse & Hnt) Hk Hns Hf.
-    destruct (teardown_general s (own ++ others) Hk Hns Hf) as (_ & Ha & Hc & Hn & Hr).
+    intros H4 (Hnd & Hse & Hnt) Hk Hns Hf.
+    destruct (teardown_general s (own ++ others) H4 Hk Hns Hf) as (_ & Ha & Hc & Hn & Hr).
     assert (Hdisj : forall k, In k others -> ~ In k (tracked_keys (co s))).
     { intros k Ho Ht. assert (Hown : In k own) by (apply Hse; apply in_or_app; left; exact Ht).
       clear - Hnd Hown Ho. induction own as [|x r IH]; [contradiction|].
@@ -1966,7 +2198,7 @@ Section Corollaries.
     - contradiction.
     - destruct H as (A0 & A1 & A2 & A3 & A4 & A5). rewrite A0 in Hk.
       rewrite <- (app_nil_r (kops s)) in Hk at 1. apply app_inv_head in Hk. subst ks. contradiction.
-    - rewrite H1 in Hk. apply app_inv_head in Hk. subst ks'. destruct H2 as (a & b & _ & _ & ->).
+    - rewrite H1 in Hk. apply app_inv_head in Hk. subst ks'. destruct H2 as (a & b & _ & _ & -> & _).
       destruct Hin as [Hin|[Hin|[]]]; discriminate Hin.
     - rewrite H1 in Hk. apply app_inv_head in Hk. subst ks'.
       split; [exact H3|]. split; [exact H4|]. intros sd Hf. apply (refusal_effect _ _ _ _ H2 Hf). auto.
@@ -2340,7 +2572,7 @@ Section Rekey.
       assert (Hnil : kops s ++ ks = kops s ++ []) by (rewrite app_nil_r; congruence).
       apply app_inv_head in Hnil. subst ks. contradiction.
     - exfalso. assert (Heq : kops s ++ ks = kops s ++ ks') by congruence.
-      apply app_inv_head in Heq. subst ks'. destruct H2 as (a & b & _ & _ & ->).
+      apply app_inv_head in Heq. subst ks'. destruct H2 as (a & b & _ & _ & -> & _).
       destruct Hin as [Hin|[Hin|[]]]; discriminate Hin.
     - assert (Heq : kops s ++ ks = kops s ++ ks') by congruence.
       apply app_inv_head in Heq. subst ks'. split; [congruence|].
@@ -2427,7 +2659,7 @@ Section More.
     destruct (fst (child_nego_res E m s)) as [[]|e|]; [| |contradiction].
     - exfalso. destruct H as (ch & (ks' & H1 & H2) & _).
       assert (Heq : kops s ++ ks = kops s ++ ks') by congruence.
-      apply app_inv_head in Heq. subst ks'. destruct H2 as (a & b & _ & _ & ->).
+      apply app_inv_head in Heq. subst ks'. destruct H2 as (a & b & _ & _ & -> & _).
       destruct Hin as [Hin|[Hin|[]]]; discriminate Hin.
     - destruct H as [H|(ch & (ks' & H1 & H2) & H3 & H4)].
       + exfalso. destruct H as (A0 & _).
@@ -2579,6 +2811,25 @@ Module Example.
     apply_kops (own1 ++ others1) (kops s') = own1 ++ others1 /\ children (co s') = [ch1].
   Proof.
     run_facts.
+  Qed.
+
+  (** 3b. the peer proposes an SPI that is not four bytes long: the generic exception before any netlink request (the
+      handler answers INVALID_SYNTAX and the shell will mark the IKE_SA DELETED); nothing issued, nothing tracked *)
+  Example ex_bad_spi_run :
+    let r := h_request E0 (s_new []) (m_new [0;0;8]%N) in
+    st (co (fst r)) <> -1 /\ kops (fst r) = [] /\ children (co (fst r)) = [ch1] /\
+    snd r = HErr ([], [P_NOTIFY PROTO_NONE N_INVALID_SYNTAX [] []]) /\ Spi4 (fst r).
+  Proof. run_facts; repeat constructor. Qed.
+  (** ... and why such a CHILD_SA must never be tracked: delete_child_sas would stop at it with the same exception,
+      leaving its kernel SAs (and those of the CHILD_SAs after it) installed and the list uncleared *)
+  Example ex_bad_spi_teardown :
+    let bad := ch1 <| c_out := [7]%N |> <| c_in := [0;0;0;3]%N |> in
+    let s0 := mk_isa (core0 ST_ESTABLISHED [ch1; bad]) None None 0 [D_verdict true; D_verdict true] [] in
+    fst (delete_child_sas s0) = Raise X_Other /\
+    kops (snd (delete_child_sas s0)) = [K_del 20 50 [0;0;0;2]%N true; K_del 10 50 [0;0;0;1]%N true] /\
+    children (co (snd (delete_child_sas s0))) = [ch1; bad] /\ ~ Spi4 s0.
+  Proof.
+    run_facts. intros [H _]. inversion H as [|? ? _ H2]; subst. inversion H2 as [|? ? H3 _]; subst. discriminate H3.
   Qed.
 
   (** 4. teardown of the IKE_SA of example 1's start state *)
